@@ -3,8 +3,9 @@
 //! Inputs (all enumerated exhaustively within the stated bounds, no sampling):
 //!  (a) structural modules from a 12-dimensional feature lattice (wasmgen.rs), built with wasm-encoder:
 //!      every pair of dimensions in full product with all other dimensions at their neutral value (so that a
-//!      single broken rule is never masked by another one), the full product of the first six dimensions,
-//!      and (thorough) every triple of the eleven small dimensions;
+//!      single broken rule is never masked by another one), the full product of the first six dimensions
+//!      (quick: five, the function-count dimension neutral), and (thorough) every triple of the eleven small
+//!      dimensions;
 //!  (b) totality: every byte string of <= 5 (thorough 6) bytes over {00,01,03,05,07,0A,0B,60,7F,FF} after the
 //!      8-byte header, every headerless string <= 3 over a 13-byte alphabet, every single-point mutation of three
 //!      valid modules (quick: 12 structural byte values per position, thorough: all 256), and deep-nesting /
@@ -163,6 +164,15 @@ impl Space {
             for j in (i + 1)..NDIM {
                 for vi in 0..lat.sizes[i] {
                     for vj in 0..lat.sizes[j] {
+                        // quick tier only: an accepted module with 8192 functions costs seconds in the
+                        // instrumenter, so the (function-count, import) pair keeps 3 of the 49 host functions
+                        if !thorough && i == wasmgen::D_FUNCS && j == wasmgen::D_IMPORT && vi != 0 {
+                            if let wasmgen::Imp::Host(p, _) = lat.imp(vj) {
+                                if p != 0 && p != 24 && p != 48 {
+                                    continue;
+                                }
+                            }
+                        }
                         let mut d = [0usize; NDIM];
                         d[i] = vi;
                         d[j] = vj;
@@ -171,7 +181,8 @@ impl Space {
                 }
             }
         }
-        // full product of the first six dimensions
+        // full product of the first six dimensions (quick: the function-count dimension stays neutral in this
+        // product — a module with 8192 functions costs ~0.3 s in the instrumenter — and is covered by the pairs)
         let mut d = [0usize; NDIM];
         loop {
             set.insert(d);
@@ -179,6 +190,10 @@ impl Space {
             loop {
                 if k == 6 {
                     break;
+                }
+                if k == wasmgen::D_FUNCS && !thorough {
+                    k += 1;
+                    continue;
                 }
                 d[k] += 1;
                 if d[k] < lat.sizes[k] {
@@ -298,6 +313,8 @@ struct Cn {
     accepted_output_checked: u64,
     rule_breaking_valid_rejected: u64,
     conforming_rejected: u64,
+    /// cpu microseconds: lattice small, lattice with ~8192 functions, byte strings, mutations, extreme
+    cpu_us: [u64; 5],
 }
 
 struct Evaluator {
@@ -327,7 +344,22 @@ impl Evaluator {
             }
             Ok(r) => r,
         };
-        let facts: Result<Facts, String> = reparse::facts(bytes);
+        let mut facts: Result<Facts, String> = reparse::facts(bytes);
+        // The engine's parser (wasmparser 0.107) reads the header's 4-byte version field as (kind:u16 high,
+        // version:u16 low) and radix-wasm-instrument never looks at the low half, so `\0asm 07 00 00 00` is
+        // taken as a module. The statement says nothing about the header: judge such inputs by their content
+        // (same bytes with the standard version field) and count the leniency as informational.
+        let mut normalised: Option<Vec<u8>> = None;
+        if facts.is_err() && r.is_ok() && bytes.len() >= 8 && bytes[..4] == HEADER[..4] && bytes[6..8] == [0, 0] && bytes[4..6] != [1, 0] {
+            let mut b = bytes.to_vec();
+            b[4..8].copy_from_slice(&HEADER[4..8]);
+            facts = reparse::facts(&b);
+            normalised = Some(b);
+            l.info("accepted input with a non-standard version field in the header (engine ignores it; statement-silent)");
+        }
+        let bytes_orig = bytes;
+        let bytes: &[u8] = normalised.as_deref().unwrap_or(bytes);
+        let case = || space.describe(d, Some(bytes_orig));
         let valid_any = facts.is_ok() && reparse::validates(bytes, wasmparser::WasmFeatures::all()).is_ok();
         if valid_any {
             cn.structurally_valid += 1;
@@ -447,7 +479,7 @@ fn local_to_json(l: &Local, cn: &Cn) -> Value {
         "infos": l.infos,
         "violations": l.violations.iter().map(|v| json!({"key": v.key, "what": v.what, "case": v.case})).collect::<Vec<_>>(),
         "samples": l.samples,
-        "cn": [cn.structurally_valid, cn.accepted, cn.accepted_output_checked, cn.rule_breaking_valid_rejected, cn.conforming_rejected],
+        "cn": [cn.structurally_valid, cn.accepted, cn.accepted_output_checked, cn.rule_breaking_valid_rejected, cn.conforming_rejected, cn.cpu_us[0], cn.cpu_us[1], cn.cpu_us[2], cn.cpu_us[3], cn.cpu_us[4]],
     })
 }
 
@@ -482,6 +514,9 @@ fn json_to_local(v: &Value, cn: &mut Cn) -> Local {
         cn.accepted_output_checked += g(2);
         cn.rule_breaking_valid_rejected += g(3);
         cn.conforming_rejected += g(4);
+        for k in 0..5 {
+            cn.cpu_us[k] += g(5 + k);
+        }
     }
     l
 }
@@ -504,8 +539,16 @@ fn child_main(ctx: &Ctx, spec: &str) -> ! {
         if !skip.contains(&i) {
             let _ = progress.write_at(format!("{i:>20}").as_bytes(), 0);
             let d = &space.descs[i];
+            let t0 = std::time::Instant::now();
             let bytes = materialize(&space, d, &ev.lim, &mut muts);
             ev.eval(&space, d, &bytes, &mut l, &mut cn);
+            let fam = match d {
+                Desc::Lattice(dims) => (dims[wasmgen::D_FUNCS] != 0) as usize,
+                Desc::Bytes(_) | Desc::Raw(_) => 2,
+                Desc::Mut(..) => 3,
+                Desc::Extreme(_) => 4,
+            };
+            cn.cpu_us[fam] += t0.elapsed().as_micros() as u64;
         }
         i += t;
     }
@@ -547,6 +590,22 @@ pub fn run(ctx: Ctx) -> ! {
             Desc::Raw(0)
         };
         let mut l = Local::new();
+        if std::env::var("MC_C45_TIMING").is_ok() {
+            let t = std::time::Instant::now();
+            let r = ev.validator.validate(&bytes, ev.pkg.blueprints.values());
+            println!("TIMING validate: {:?} ok={}", t.elapsed(), r.is_ok());
+            let t = std::time::Instant::now();
+            let f = reparse::facts(&bytes);
+            println!("TIMING facts: {:?}", t.elapsed());
+            let t = std::time::Instant::now();
+            let _ = reparse::validates(&bytes, wasmparser::WasmFeatures::all());
+            println!("TIMING validates: {:?}", t.elapsed());
+            if let (Ok((out, _)), Ok(f)) = (r, f) {
+                let t = std::time::Instant::now();
+                let bad = reparse::check_output(&f, &out, &ev.lim);
+                println!("TIMING check_output: {:?} bad={}", t.elapsed(), bad.len());
+            }
+        }
         ev.eval(&space, &d, &bytes, &mut l, &mut cn);
         for v in &l.violations {
             println!("REPLAY: {} :: {}", v.key, v.what);
@@ -638,6 +697,7 @@ pub fn run(ctx: Ctx) -> ! {
     cov.insert("rule_breaking_but_valid_wasm_rejected".into(), json!(cn.rule_breaking_valid_rejected));
     cov.insert("conforming_lattice_modules_rejected".into(), json!(cn.conforming_rejected));
     cov.insert("processes_killed".into(), json!(killed));
+    cov.insert("cpu_seconds_by_family".into(), json!({"lattice_small": cn.cpu_us[0] as f64 / 1e6, "lattice_many_functions": cn.cpu_us[1] as f64 / 1e6, "byte_strings": cn.cpu_us[2] as f64 / 1e6, "mutations": cn.cpu_us[3] as f64 / 1e6, "extreme": cn.cpu_us[4] as f64 / 1e6}));
     cov.insert("child_processes".into(), json!(t));
     ctx.finish(
         Level::Exploration,
